@@ -54,3 +54,72 @@ def bq_packer(ctx, rule):
             ok_w = False
     ctx.check(ok_w, rule, key + '/one-word-per-chunk', writes[0].loc() if writes else f.loc(), 'exactly one extend_from_slice(u64::to_ne_bytes(word)) per chunk',
               'the packer does not append exactly one native-endian u64 word per chunk of 64 components (writes: %s)' % [short(c.callee) for c in writes])
+
+
+def is_dimensions(t):
+    """the declared dimension of the handle: a `dimensions` field or `dimensions()` call rooted at a parameter/capture"""
+    from rules import root
+    t0 = strip(t)
+    if t0[0] == 'field' and t0[2] == 'dimensions':
+        return root(t0[1])[0] == 'arg'
+    if t0[0] == 'call' and t0[1].endswith('::dimensions') and t0[2]:
+        return root(t0[2][0])[0] == 'arg'
+    return False
+
+
+def trunc_rule(ctx, rule, only=None):
+    """R-TRUNC: a Vec<f32> obtained by to_vec() from a stored leaf's vector, outside the distance/codec internals,
+    is truncated to the declared dimension on every path before it leaves the function or is re-encoded"""
+    F = ctx.F
+    n = 0
+    for f in F.lib_fns():
+        if f.path.startswith(('distance::', 'unaligned_vector::', '<unaligned_vector::')):
+            continue  # centroid arithmetic and the codec itself: vectors neither returned nor stored
+        if only is not None and not any(o in f.path for o in only):
+            continue
+        for c in f.calls():
+            if not c.callee.endswith('UnalignedVector::<Codec>::to_vec'):
+                continue
+            n += 1
+            key = '%s/to_vec#%d' % (f.path, n)
+            truncs = [t for t in f.calls() if t.callee.endswith('Vec::<T, A>::truncate')
+                      and paths.mentions_call(t.arg_term(0), c.bb) and is_dimensions(t.arg_term(1))]
+            exits = [b for b in f.return_blocks()]
+            good = bool(truncs) and paths.must_pass(f, c.target, exits, [t.bb for t in truncs])
+            # error exits between to_vec and truncate do not count
+            ctx.check(good, rule, key, c.loc(), 'truncated to the declared dimension before use',
+                      'the vector decoded by to_vec() in `%s` is used at the codec\'s padded length (not truncated to the declared dimension): quantised vectors come back as multiples of 64 components' % f.path)
+    return n
+
+
+def f32_codec_is_bytecopy(ctx, rule):
+    """no floating-point arithmetic inside the f32 vector codec"""
+    F = ctx.F
+    n = 0
+    for meth in ('from_bytes', 'from_slice', 'from_vec', 'to_vec', 'iter', 'len'):
+        f = F.impl_method('UnalignedVectorCodec', 'f32', meth)
+        if not ctx.need(f is not None, rule, 'f32 codec method ' + meth):
+            continue
+        bad = []
+        for g in F.family(f):
+            for blk in g.blocks:
+                if blk['cleanup']:
+                    continue
+                for st in blk['stmts']:
+                    rv = st['rv']
+                    if rv['k'] in ('binop', 'unop'):
+                        for key in ('a', 'b'):
+                            o = rv.get(key)
+                            if o and o.get('k') in ('copy', 'move') and not o['place']['p'] and g.local_ty(o['place']['l']) in ('f32', 'f64'):
+                                bad.append(rv['op'])
+                            if o and o.get('k') == 'const' and o['c']['ty'] in ('f32', 'f64'):
+                                bad.append(rv['op'])
+                    if rv['k'] == 'cast' and rv['ck'].startswith(('FloatTo', 'IntToFloat')):
+                        bad.append(rv['ck'])
+            for c in g.calls():
+                if c.callee.startswith(('core::f32::', 'std::f32::')) and not c.callee.endswith(('to_ne_bytes', 'from_ne_bytes', 'to_bits', 'from_bits')):
+                    bad.append(short(c.callee))
+        n += 1
+        ctx.check(not bad, rule, 'f32-codec/' + meth, f.loc(), 'no floating-point operation (bit patterns, NaN payloads and -0.0 survive)',
+                  'the f32 vector codec method `%s` computes on the values (%s): stored vectors are no longer returned bit-for-bit' % (meth, sorted(set(bad))))
+    return n
